@@ -128,6 +128,10 @@ func (h accountsResourceHandler) Expand(opts common.ResourceQuery[any], property
 		if !h.store.ledger.HasFeature(features.FeatureMovesHistoryPostCommitEffectiveVolumes, "SYNC") {
 			return nil, nil, common.NewErrInvalidQuery("feature %s must be 'SYNC' to use effectiveVolumes", features.FeatureMovesHistoryPostCommitEffectiveVolumes)
 		}
+		// at a point in time the effective volumes are read from the moves table
+		if opts.UsePIT() && !h.store.ledger.HasFeature(features.FeatureMovesHistory, "ON") {
+			return nil, nil, common.NewErrInvalidQuery("feature %s must be 'ON' to use effectiveVolumes with a point in time", features.FeatureMovesHistory)
+		}
 	}
 
 	selectRowsQuery := h.store.newScopedSelect().
